@@ -106,6 +106,13 @@ type c17Peer struct {
 	sent   uint32
 
 	lastSent time.Time // when the last answer was written
+
+	// c17.callers (c17ident.go): an answer per request (by ping_id, in the order they are to be written), held back
+	// until `hold` requests have arrived
+	plan       []c17Planned
+	hold       int
+	pending    map[uint64]envMsg
+	afterReply func(ping uint64) // called after the answer to this request was written (c17.callers mode w)
 }
 
 func newC17Peer(sym string, key []byte, a c17Answer) *c17Peer {
@@ -174,26 +181,45 @@ func (p *c17Peer) serve(c net.Conn) {
 		ping := binary.LittleEndian.Uint64(m.Body[4:])
 		p.mu.Lock()
 		p.reqs = append(p.reqs, c17PeerReq{mid: m.Mid, ping: ping})
-		p.nextID += 12 // mid-4 and mid-8 stay free for the messages inside a container (c17Shape)
-		mid := p.nextID
-		seq := p.sent*2 + 1 // content-related
-		p.sent++
+		planned := p.plan != nil
 		p.mu.Unlock()
-		var payload []byte
-		if p.answer.isErr {
-			payload = append(append(c17U32(c17CrcRpcError), c17U32(uint32(p.answer.code))...), c17TLString(p.answer.text)...)
-		} else {
-			payload = c17ValueBytes(p.answer.kind, p.answer.n, m.Mid, ping)
+		if planned {
+			// c17.callers (c17ident.go): every request has an answer of its own (by ping_id); the answers are held back
+			// until `hold` requests have arrived and then written in the order of the plan
+			if !p.servePlanned(c, m, ping) {
+				return
+			}
+			continue
 		}
-		body, seq := c17Shape(p.answer.shape, p.answer.isErr, m.Mid, payload, mid, seq)
-		out := envSeal(8, p.key, envMsg{Salt: m.Salt, Sid: m.Sid, Mid: mid, Seq: seq, Body: body}, make([]byte, (16-(32+len(body))%16)%16))
-		if _, err := c.Write(append(c17U32(uint32(len(out))), out...)); err != nil {
+		if !p.reply(c, m, ping, p.answer) {
 			return
 		}
-		p.mu.Lock()
-		p.lastSent = time.Now()
-		p.mu.Unlock()
 	}
+}
+
+// reply writes rpc_result{answer} for the request m (a ping with this ping_id)
+func (p *c17Peer) reply(c net.Conn, m envMsg, ping uint64, a c17Answer) bool {
+	p.mu.Lock()
+	p.nextID += 12 // mid-4 and mid-8 stay free for the messages inside a container (c17Shape)
+	mid := p.nextID
+	seq := p.sent*2 + 1 // content-related
+	p.sent++
+	p.mu.Unlock()
+	var payload []byte
+	if a.isErr {
+		payload = append(append(c17U32(c17CrcRpcError), c17U32(uint32(a.code))...), c17TLString(a.text)...)
+	} else {
+		payload = c17ValueBytes(a.kind, a.n, m.Mid, ping)
+	}
+	body, seq := c17Shape(a.shape, a.isErr, m.Mid, payload, mid, seq)
+	out := envSeal(8, p.key, envMsg{Salt: m.Salt, Sid: m.Sid, Mid: mid, Seq: seq, Body: body}, make([]byte, (16-(32+len(body))%16)%16))
+	if _, err := c.Write(append(c17U32(uint32(len(out))), out...)); err != nil {
+		return false
+	}
+	p.mu.Lock()
+	p.lastSent = time.Now()
+	p.mu.Unlock()
+	return true
 }
 
 func (p *c17Peer) snapshot() (reqs []c17PeerReq, conns int) {
